@@ -10,6 +10,7 @@ THEOREMS = {
         "Dawgs.C01.Props.ofCy2_sound", "Dawgs.C01.Props.graphOK2_of_check", "Dawgs.C01.Props.exG2_ok",
         "Dawgs.C01.Props.tr3_some", "Dawgs.C01.Props.tr_sound_S2c", "Dawgs.C01.Props.c01_partial_S3", "Dawgs.C01.Props.ofCyChain_sound",
         "Dawgs.C01.Props.tr4_some", "Dawgs.C01.Props.tr_sound_S1c", "Dawgs.C01.Props.c01_partial_S4", "Dawgs.C01.Props.ofCyCount1_sound",
+        "Dawgs.C01.Props.tr5_some", "Dawgs.C01.Props.tr_sound_S2n", "Dawgs.C01.Props.c01_partial_S5", "Dawgs.C01.Props.ofCyCount2_sound",
     ],
 }
 
@@ -179,11 +180,13 @@ FRAGMENT_PROVED = ("stage S1 (all graphs with unique node ids / injective kind m
                    "`select count(*)::int8 [as c] from node n0 [where kinds]` (emitted when the MATCH has no user predicate and the optimiser is on) and the node frame + "
                    "`select count(s0.n0)::int8 [as c] from s0` both return the one row the reference semantics returns, the number of matching nodes. "
                    "stage S2b (all graphs that additionally have unique relationship ids, only relationship kinds known to the kind map and no relationship property stored as JSON "
-                   "null; all queries; BOTH join orders of the emitted statement): "
+                   "null; all queries; BOTH join orders of the emitted statement; the frame PRUNED to the bindings that are read (what the optimised translator emits) or complete): "
                    "MATCH (a[:K...])-[r[:T1|T2...]]->(b[:K...]) [WHERE c1 AND ... AND cn] RETURN items, one directed fixed hop, no ORDER BY / SKIP / LIMIT / DISTINCT, a, r, b pairwise "
-                   "distinct names and each of them read by some item; every conjunct ci is a predicate p of the S1 language over exactly ONE of a, r, b (for r a kind atom r:T means "
+                   "distinct names, any non-empty list of items over them; every conjunct ci is a predicate p of the S1 language over exactly ONE of a, r, b (for r a kind atom r:T means "
                    "type(r) = T); conjuncts that read two variables (a.x = b.y, a.x = 1 OR b.y = 2) are outside; items ::= x | id(x) | x.k [AS alias] for x in {a, r, b}; "
                    "the rows agree as a BAG (List.Perm), not as a list. "
+                   "stage S2n (same graphs, join orders and pruning as S2b): MATCH (a[:K...])-[r[:T|...]]->(b[:K...]) [WHERE single-variable conjuncts] RETURN count(x) [AS c], x one "
+                   "of a, r, b — one row, the number of matches. "
                    "stage S2c (same graphs; both join orders of the first hop): chains of TWO or THREE directed fixed hops "
                    "MATCH (n0[:K...])-[e0[:T|...]]->(n1[:K...])-[e1[:T|...]]->(n2[:K...]) [-[e2[:T|...]]->(n3[:K...])] RETURN items, no WHERE / ORDER BY / SKIP / LIMIT / DISTINCT, "
                    "all variable names distinct, every variable read by some item, items ::= x | id(x) | x.k [AS alias]; bag agreement. openCypher's relationship uniqueness within the "
@@ -201,7 +204,7 @@ SPEC = {
     "theorems_by_module": THEOREMS,
     "gate_modules": ["Dawgs.Model.Graph", "Dawgs.Model.Cypher", "Dawgs.Model.CyEval", "Dawgs.Model.SqlVal", "Dawgs.Model.SqlEval", "Dawgs.Model.C01", "Dawgs.Model.C01S2", "Dawgs.Model.C01Chain", "Dawgs.Model.C01Count", "Dawgs.Model.C02",
                      "Dawgs.Proofs.C01", "Dawgs.Proofs.C01Sql", "Dawgs.Proofs.C01Pred", "Dawgs.Proofs.C01Query", "Dawgs.Proofs.C01Cy", "Dawgs.Proofs.C01Sound",
-                     "Dawgs.Proofs.C01Frag", "Dawgs.Proofs.C01At", "Dawgs.Proofs.C01S2Sql", "Dawgs.Proofs.C01S2Cy", "Dawgs.Proofs.C01S2Sound", "Dawgs.Proofs.C01ChainSql", "Dawgs.Proofs.C01ChainCy", "Dawgs.Proofs.C01ChainSound", "Dawgs.Proofs.C02", "Dawgs.Proofs.C01Count", "Dawgs.Props.C01"],
+                     "Dawgs.Proofs.C01Frag", "Dawgs.Proofs.C01At", "Dawgs.Proofs.C01S2Sql", "Dawgs.Proofs.C01S2Cy", "Dawgs.Proofs.C01S2Sound", "Dawgs.Proofs.C01ChainSql", "Dawgs.Proofs.C01ChainCy", "Dawgs.Proofs.C01ChainSound", "Dawgs.Proofs.C02", "Dawgs.Proofs.C01Count", "Dawgs.Proofs.C01CountHop", "Dawgs.Props.C01"],
     "suites": [{"name": "c01tie", "model_suite": "c01tie", "model_input": model_input, "impl_view": impl_view, "model_view": model_view,
                 "judge": tie_judge, "keep_prefix": 1, "thorough_seeds": 1},
                {"name": "c01", "model_suite": "c01sem", "model_input": model_input, "impl_view": impl_view, "model_view": model_view,
@@ -211,12 +214,12 @@ SPEC = {
     "extra_coverage": extra_coverage,
     "panic_is_violation": False,
     "rule": "tie 1 (suite c01tie): structured random queries of the PROVED fragment S1 (kinds x predicates x items x order/skip/limit) and S2b (kinds of a / r / b x 0-4 WHERE conjuncts, "
-            "each an S1 predicate of depth <= 2 over one of a, r, b x items over a, r, b) S2c (chains of 2-3 hops x kinds x items over all variables) and S1c (count(n) over a node pattern x kinds x optional predicate x alias; splitmix64(VERIF_SEED)) are translated by the REAL "
+            "each an S1 predicate of depth <= 2 over one of a, r, b x 1-4 items over any of a, r, b) S2c (chains of 2-3 hops x kinds x items over all variables) S1c (count(n) over a node pattern x kinds x optional predicate x alias) and S2n (count(x) over a hop x kinds x 0-3 conjuncts x alias; splitmix64(VERIF_SEED)) are translated by the REAL "
             "translator; the reflection S-expression of Result.Statement must be EQUAL to the model translator's statement (and carry no parameters) — for a hop the model has TWO "
             "statements, one per join order (`S2.Query.trWith km false / true`): which one the translator picks is a selectivity heuristic over its Go syntax tree that scores only "
             "pointer-typed nodes, which the reflection rendering does not determine, so the direction is NOT modelled; the theorems hold for both and the tie accepts either (the "
             "record counts how often the model's own approximation `flipOpt` names the order taken) — and on every generated graph satisfying "
-            "the stage's hypothesis (GraphOK for S1 / S1c, GraphOK2 for S2b / S2c) the two evaluators must agree. tie 2 (suite c01, SEARCH not proof): FOCUSED FAMILIES (harness/focused.go: variable-length step + >= 2 fixed hops with every subset of the suffix nodes already bound, "
+            "the stage's hypothesis (GraphOK for S1 / S1c, GraphOK2 for S2b / S2c / S2n) the two evaluators must agree. tie 2 (suite c01, SEARCH not proof): FOCUSED FAMILIES (harness/focused.go: variable-length step + >= 2 fixed hops with every subset of the suffix nodes already bound, "
             "aggregate-only RETURN incl. collect / size(collect()) with LIMIT and no ORDER BY — one output row, so the LIMIT is deterministic —, aggregate traversal counts, collect membership; a NAMED PATH bound by a MATCH whose own WHERE holds a pattern predicate, over patterns the optimiser reverses, the path / "
             "nodes(p) / relationships(p) / length(p) observed directly and through WITH (path VALUES are compared as ordered node and relationship lists; a result that is the Cypher "
             "result with every path reversed is the symptom class `path-in-reverse-order`, keyed by the enabling query shape); string predicates and equalities whose literal contains "
@@ -243,13 +246,13 @@ SPEC = {
     "assumptions": ["GraphOK (theorems): node ids unique, kind map injective, no property stored as JSON null; decidable (graphOKb), evaluated on every generated graph, "
                     "graphs outside it are still evaluated and counted",
                     "GraphOK2 (stage S2b theorems): GraphOK + relationship ids unique + every relationship kind present in the kind map + no relationship property stored as JSON null; decidable (graphOK2b), evaluated on every generated graph",
-                    "proof only on stages S1, S1c, S2b and S2c; every other construct is search on small graphs (bounded evaluation, NOT proof)"],
+                    "proof only on stages S1, S1c, S2b, S2c and S2n; every other construct is search on small graphs (bounded evaluation, NOT proof)"],
 }
 
 MANIFEST = {
     "category": "translation_validation",
-    "technique": "Lean semantics for both languages (Cy.eval, Sql.eval); model translator tr4F proved sound on stages S1, S1c (count over a node pattern), S2b (one directed hop with WHERE) and S2c (chains of 2-3 directed hops) for all graphs, all queries and both join orders, tied to the real translator by exact "
-                 "AST equality on generated S1 / S1c / S2b / S2c queries; outside them: evaluation of the REAL emitted statement against the source query on generated small graphs (search)",
+    "technique": "Lean semantics for both languages (Cy.eval, Sql.eval); model translator tr5F proved sound on stages S1, S1c (count over a node pattern), S2b (one directed hop with WHERE), S2c (chains of 2-3 directed hops) and S2n (count over a hop) for all graphs, all queries and both join orders, tied to the real translator by exact "
+                 "AST equality on generated S1 / S1c / S2b / S2c / S2n queries; outside them: evaluation of the REAL emitted statement against the source query on generated small graphs (search)",
     "text": "PROVED (Props/C01.lean, axioms propext/Classical.choice/Quot.sound only): tr_sound_S1 — for every graph with unique node ids, injective kind map and no stored JSON null, "
             "every parsed query q and statement (st, ps) with tr km q = some (st, ps): if Sql.eval (encode km g) st ps yields a table then Cy.eval g q yields a result and both show the "
             "client the same rows in the same order; tr_no_runtime_error — that evaluation never ends in an SQL run-time / type / name error (only the model's own `unmodelled` for `->>` of "
@@ -259,19 +262,21 @@ MANIFEST = {
             "relationship property stored as JSON null) and every parsed query with tr2F flipOf km q = some (st, ps): if the statement yields a table then Cy.eval yields a result and the "
             "client rows are a PERMUTATION of each other (no ORDER BY in S2b; for S1 queries the lists are equal); tr_sound_S2b — the same said per hop query for both statements "
             "S2.Query.trWith km false / true; tr2_cypher_defined; tr2_no_runtime_error (only the model's `unmodelled` for `->>` of array/object properties); "
-            "c01_partial_S2 : forall flipOf, C01_bag_for (tr2F flipOf); tr2_some (tr2F answers only inside S1 or S2b); ofCy2_sound; graphOK2_of_check. The WHERE conjuncts over a / b are "
+            "c01_partial_S2 : forall flipOf prune, C01_bag_for (tr2F flipOf prune) — prune = the lowering ProjectionPruning: the frame s0 projects only the bindings a RETURN item or a WHERE "
+            "conjunct reads (kinds in the pattern do not count), in the order e0, n0, n1; tr2_some (tr2F answers only inside S1 or S2b); ofCy2_sound; graphOK2_of_check. The WHERE conjuncts over a / b are "
             "emitted inside the join conditions, those over r in the frame's WHERE; the predicate lemmas are entity-generic (Proofs/C01At.lean: sql_predAt / cy_predAt over a node or a "
-            "relationship under any table alias / variable). Stage S2c (chains): tr_sound_S2c / c01_partial_S3 : forall flipOf flipCh, C01_bag_for (tr3F flipOf flipCh) — the statement with "
+            "relationship under any table alias / variable). Stage S2c (chains): tr_sound_S2c / c01_partial_S3 : forall flipOf flipCh prune, C01_bag_for (tr3F flipOf flipCh prune) — the statement with "
             "frames s0 (the hop frame), s1 [, s2] (each `from s_(i-1) join edge e_i on (s_(i-1).n_i).id = e_i.start_id join node n_(i+1) on ... where [kinds and] e_i.id != (s_(i-1).e_j).id`) "
             "returns a permutation of the Cypher rows. Cypher side proved for chains of ANY length (Proofs/C01ChainCy.lean matchSteps_chain: the reference matcher enumerates exactly the "
             "extensions by a relationship not used yet), SQL side frame by frame for 2 and 3 hops (Proofs/C01ChainSql.lean frame1 / frame2, C01ChainSound.lean chain_sound); tr3_some; ofCyChain_sound. Stage S1c (count): tr_sound_S1c / count_sound — for every GraphOK graph, every query MATCH (n[:K...]) [WHERE p] RETURN count(n) [AS c] "
             "and both statement shapes (fast path on / off) the SQL row equals the Cypher row (Proofs/C01Count.lean: evalSelect_countA, fastStmt_eval, frameStmt_eval, cy_side_count — "
-            "implicit grouping with no key is one group, count(n) counts the non-null bindings); c01_partial_S4 : forall flipOf flipCh fast, C01_bag_for (tr4F flipOf flipCh fast); "
-            "tr4_some; ofCyCount1_sound. FRAGMENT PROVED = " + FRAGMENT_PROVED + ". NOT PROVED: C01_full (the statement for a total "
+            "implicit grouping with no key is one group, count(n) counts the non-null bindings); c01_partial_S4 : forall flipOf flipCh fast prune, C01_bag_for (tr4F flipOf flipCh fast prune); "
+            "tr4_some; ofCyCount1_sound. Stage S2n (count over a hop): tr_sound_S2n / count_hop_sound (Proofs/C01CountHop.lean: the S2b frame lemmas + evalSelect_countA over the pruned "
+            "frame; cy_count_eval — RETURN count(v) over any list of rows binding v) ; c01_partial_S5 : forall flipOf flipCh flipN fast prune, C01_bag_for (tr5F ...); tr5_some; ofCyCount2_sound. FRAGMENT PROVED = " + FRAGMENT_PROVED + ". NOT PROVED: C01_full (the statement for a total "
             "translator) stays a visible Prop; the design's S1 remainder (DISTINCT, ORDER BY on properties, ordered and string-function property comparisons), the rest of S2 (undirected hops, chains with WHERE or of more than three hops, "
             "WHERE conjuncts that read two variables, ORDER BY over a hop) and S3..S5 are SEARCHED only. "
             "FRAGMENT SEARCHED = " + FRAGMENT_SEARCHED + ". Confirmed deviations of the unchanged translator from openCypher (OPTIONAL MATCH as first clause, jsonb ordering under ORDER BY, "
             "self loops under undirected patterns, missing relationship uniqueness across pattern parts, text-form comparisons, SQL run-time cast errors, ...) are findings in "
             "known_findings.json, each with a replay in corpus/C01.",
-    "note": "No PostgreSQL server: SQL meaning is a trusted Lean transcription of the documentation. Bounded evaluation on small graphs is search, not proof; the proof covers stages S1, S1c, S2b and S2c only.",
+    "note": "No PostgreSQL server: SQL meaning is a trusted Lean transcription of the documentation. Bounded evaluation on small graphs is search, not proof; the proof covers stages S1, S1c, S2b, S2c and S2n only.",
 }
